@@ -2,7 +2,7 @@
 """Shared machinery of the zog verification checks: TLC runs, harness builds, evidence, verdicts."""
 import atexit, hashlib, json, os, re, shutil, subprocess, sys, tempfile, time  # noqa
 
-VERIF = '/verif'
+VERIF = os.path.dirname(os.path.dirname(os.path.abspath(__file__)))   # /verif (or a snapshot of it under `vp run`)
 SPEC = VERIF + '/spec'
 # The registered checks always use /repo and /verif/evidence. The three overrides exist only so that seeded
 # changes can be evaluated in scratch worktrees (bin/evalmutant.sh) without touching /repo or the evidence.
